@@ -479,6 +479,9 @@ func (r *Runner) assignVal(name string, prev expand.Variable, as *syntax.Assign,
 	if as.Append {
 		switch prev.Kind {
 		case expand.Unknown:
+		case expand.NameRef:
+			// A name reference which did not resolve, such as an empty one;
+			// it holds no value to append to.
 		case expand.String:
 			list = []string{prev.Str}
 		case expand.Indexed:
